@@ -680,7 +680,7 @@ func (s *sharedEntryAttributes) NavigateSdcpbPath(ctx context.Context, pathElems
 		}
 		return entry.NavigateSdcpbPath(ctx, pathElems[1:], false)
 	default:
-		e, exists := s.filterActiveChoiceCaseChilds()[pathElems[0].Name]
+		e, exists := s.getActiveChildOnDemandSafe(pathElems[0].Name)
 		if !exists {
 			e, err = s.tryLoading(ctx, []string{pathElems[0].Name})
 			if err != nil {
@@ -693,7 +693,9 @@ func (s *sharedEntryAttributes) NavigateSdcpbPath(ctx context.Context, pathElems
 
 		if !exists {
 			pth := &sdcpb.Path{Elem: pathElems}
+			s.treeContext.onDemandMutex.Lock()
 			e, err = s.tryLoadingDefault(ctx, utils.ToStrings(pth, false, false))
+			s.treeContext.onDemandMutex.Unlock()
 			if err != nil {
 				pathStr := utils.ToXPath(pth, false)
 				return nil, fmt.Errorf("navigating tree, reached %v but child %v does not exist, trying to load defaults yielded %v", s.Path(), pathStr, err)
@@ -752,7 +754,7 @@ func (s *sharedEntryAttributes) Navigate(ctx context.Context, path []string, isR
 	case "..":
 		return s.parent.Navigate(ctx, path[1:], false)
 	default:
-		e, exists := s.filterActiveChoiceCaseChilds()[path[0]]
+		e, exists := s.getActiveChildOnDemandSafe(path[0])
 		if !exists {
 			e, _ = s.tryLoading(ctx, append(s.Path(), path...))
 			if e != nil {
@@ -760,7 +762,9 @@ func (s *sharedEntryAttributes) Navigate(ctx context.Context, path []string, isR
 			}
 		}
 		if !exists {
+			s.treeContext.onDemandMutex.Lock()
 			e, err = s.tryLoadingDefault(ctx, append(s.Path(), path...))
+			s.treeContext.onDemandMutex.Unlock()
 			if err != nil {
 				return nil, fmt.Errorf("navigating tree, reached %v but child %v does not exist, trying to load defaults yielded %v", s.Path(), path, err)
 			}
@@ -770,7 +774,18 @@ func (s *sharedEntryAttributes) Navigate(ctx context.Context, path []string, isR
 	}
 }
 
+// getActiveChildOnDemandSafe returns the active child with the given name. It does not return a child that is
+// in the middle of being loaded on demand by another goroutine, it waits for the load to finish instead.
+func (s *sharedEntryAttributes) getActiveChildOnDemandSafe(name string) (Entry, bool) {
+	s.treeContext.onDemandMutex.RLock()
+	defer s.treeContext.onDemandMutex.RUnlock()
+	e, exists := s.filterActiveChoiceCaseChilds()[name]
+	return e, exists
+}
+
 func (s *sharedEntryAttributes) tryLoading(ctx context.Context, path []string) (Entry, error) {
+	s.treeContext.onDemandMutex.Lock()
+	defer s.treeContext.onDemandMutex.Unlock()
 	upd, err := s.treeContext.GetTreeSchemaCacheClient().ReadRunningPath(ctx, append(s.Path(), path...))
 	if err != nil {
 		return nil, err
